@@ -47,6 +47,16 @@ func runC05(c *sim.Ctx, t *testing.T) {
 	sim.Install(c)
 	defer sim.Uninstall()
 	cfg := genCfg{native: true, failOps: true, nullRet: true, permanents: true, unknownNode: true, guards: true, loops: true, maxNodes: 5, errorNode: true, sameStub: true}
+	// Fault: the host's context ends - before the first call, or while the k-th action of
+	// the history runs.  Only with programs whose actions are all native (they ignore the
+	// context, so every rule below still applies unchanged; what a cancelled context does
+	// to a running script is C11's subject).
+	ctxFault := c.Chance(1, 6, "ctxfault")
+	cancelAfter := 0
+	if ctxFault {
+		cfg.nativeOnly = true
+		cancelAfter = c.Intn(5, "cancelafter")
+	}
 	gs := genSpec(c, cfg)
 	spec, err := compile(gs)
 	if err != nil {
@@ -54,6 +64,23 @@ func runC05(c *sim.Ctx, t *testing.T) {
 		return
 	}
 	ctx := context.Background()
+	if ctxFault {
+		var cancel context.CancelFunc
+		ctx, cancel = context.WithCancel(ctx)
+		defer cancel()
+		if cancelAfter == 0 {
+			cancel()
+		}
+		executed := 0
+		nativeHook = func() {
+			executed++
+			if executed == cancelAfter {
+				cancel()
+			}
+		}
+		defer func() { nativeHook = nil }()
+		c.Count("runs_with_cancelled_context")
+	}
 	start := genState(c, gs, cfg)
 	if start.Bs == nil {
 		start.Bs = map[string]interface{}{}
